@@ -6,7 +6,59 @@
 
 package chained_bft
 
+// ---- quorum certificate accessors: pure functions of the certificate ----
+//@ iface QuorumCertInterface.GetProposalView
+//@   trusted
+//@   pure
+//@ iface QuorumCertInterface.GetProposalId
+//@   trusted
+//@   pure
+//@ iface QuorumCertInterface.GetParentProposalId
+//@   trusted
+//@   pure
+//@ iface QuorumCertInterface.GetParentView
+//@   trusted
+//@   pure
+//@ iface QuorumCertInterface.GetSignsInfo
+//@   trusted
+//@   pure
+
+//@ spec func member(target string, s []string) bool = exists j int :: 0 <= j && j < len(s) && s[j] == target
+
+//@ func isInSlice
+//@   property C14
+//@   ensures membership: result == member(target, s)
+//@   loop 1 invariant seen_none: forall j int :: 0 <= j && j < $i ==> s[j] != target
+//@   loop 1 invariant bound: $i <= len(s)
+
 //@ func DefaultSaftyRules.CalVotesThreshold
 //@   property C14
-//@   requires sum_pos: sum >= 1
+//@   requires sum_nonneg: sum >= 0
 //@   ensures  threshold: result == (input >= sum - (sum-1)/3 - 1)
+
+// countsAt(k): entry k of the certificate's signature list is a member of the
+// validator set carrying a valid signature over the certified id, and no
+// earlier entry with the same address is; distinctValid(k) counts such entries
+// among the first k. It is the number of DISTINCT members with a valid signature.
+//
+//@ spec func countsAt(cc base.CryptoClient, signs []*pb.QuorumCertSign, vs []string, id bytes, k int) bool =
+//@     member(qcsAddr(signs[k]), vs) && voteSigValid(cc, signs[k], id)
+//@     && !(exists j int :: 0 <= j && j < k && qcsAddr(signs[j]) == qcsAddr(signs[k]) && voteSigValid(cc, signs[j], id))
+//@ spec func distinctValid(cc base.CryptoClient, signs []*pb.QuorumCertSign, vs []string, id bytes, k int) int =
+//@     k <= 0 ? 0 : distinctValid(cc, signs, vs, id, k-1) + (countsAt(cc, signs, vs, id, k-1) ? 1 : 0)
+
+// Property C14: a certificate is accepted only with valid signatures over the
+// certified id from at least n - floor((n-1)/3) - 1 DISTINCT members of the
+// validator set passed in.
+//
+//@ func DefaultSaftyRules.CheckProposal
+//@   property C14
+//@   let signs = parent.GetSignsInfo()
+//@   let id = parent.GetProposalId()
+//@   let cc = s.Crypto.CryptoClient
+//@   let n = len(justifyValidators)
+//@   ensures quorum_distinct: result == nil ==> distinctValid(cc, signs, justifyValidators, id, len(signs)) >= n - (n-1)/3 - 1
+//@   loop 1 invariant idx: 0 <= $i && $i <= len(signs)
+//@   loop 1 invariant count: validCnt == distinctValid(cc, signs, justifyValidators, id, $i)
+//@   loop 1 invariant counted_vals: forall a string :: in(counted, a) ==> counted[a]
+//@   loop 1 invariant counted_def: forall a string :: in(counted, a) <==> (exists j int :: 0 <= j && j < $i && qcsAddr(signs[j]) == a && member(a, justifyValidators) && voteSigValid(cc, signs[j], id))
